@@ -179,3 +179,7 @@ def run(ctx):
     # it must be one Jacobian-vector product per diffusion column (a transposed product halves the Ito order and makes the
     # Stratonovich scheme converge to a different SDE when the Jacobian of g is not symmetric)
     ctx.guard(c02.r02_2)
+    # the state the solver carries from one output interval to the next is a grid state: emitting an output must leave the
+    # loop state untouched (continuing from an interpolated value costs O(sqrt(dt)) at every later output) -- rule of C12
+    from . import c12
+    ctx.guard(c12.r12_4)
